@@ -17,7 +17,7 @@ import numpy as np
 from .. import taps, gen
 from ..ctx import Skip, digest
 from ..snap import snap, is_obs, is_cobs
-from ..compare import compare_obs
+from ..compare import compare_obs, drop_null_cov
 from ..ref import dense
 
 ID = 'C01'
@@ -129,7 +129,9 @@ class DerivedObsMonitor(taps.Monitor):
             snaps = []
             for x in flat:
                 if is_obs(x):
-                    snaps.append(snap(x))
+                    # a covariance input with an identically zero matrix carries nothing (the library's
+                    # placeholder for plain numbers inside matrices): dropped on both sides
+                    snaps.append(drop_null_cov(snap(x)))
                 elif isinstance(x, (int, float, np.integer, np.floating)):
                     snaps.append(_num_snapshot(x))
                 else:
@@ -962,12 +964,49 @@ def plan(tier):
     p.append(('tree:same_configs', 60 * m))
     for w in ('autograd_multi', 'num_grad', 'man_grad', 'matmul', 'inv', 'mixed_inputs_2d', 'fit', 'root'):
         p.append(('x:' + w, 8 * m))
+    for f in FOREIGN:
+        p.append(('foreign:' + f, 8 if tier == 'quick' else 150))
     return p
+
+
+# ------------------------------------------------------------------------------------------
+# The workloads of other properties as additional workload for the L1 monitor: fits, roots, integrals,
+# matrix operations, correlator arithmetic, reweighting all end in derived_observable calls; each of
+# them is recomputed by the dense reference here (their own oracles record into a scratch context).
+FOREIGN = ['C05', 'C06', 'C07', 'C08', 'C09', 'C10', 'C14', 'C15', 'C16']
+_foreign = {}
+
+
+def case_foreign(ctx, prop, idx):
+    import importlib
+    from ..worker import case_rng, expand_plan, interleave
+    if prop not in _foreign:
+        mod = importlib.import_module('vmon.props.' + prop)
+        fctx = ctx.trial()
+        fctx.tier = 'quick'
+        if hasattr(mod, 'setup'):
+            mod.setup(fctx)
+        _foreign[prop] = (mod, fctx, interleave(expand_plan(mod.plan('quick'))))
+    mod, fctx, cases = _foreign[prop]
+    kind, i = cases[(idx * 7919) % len(cases)]
+    before = ctx.counters.get('L1_calls_judged', 0)
+    fctx.case = (kind, i)
+    try:
+        mod.run_case(fctx, kind, i, case_rng(ctx.seed, prop, kind, i))
+    except Skip:
+        pass
+    except Exception:
+        ctx.count('foreign_case_raised')
+    ctx.count('foreign_cases:' + prop)
+    ctx.count('foreign_L1_calls_judged', ctx.counters.get('L1_calls_judged', 0) - before)
+    ctx.cell('foreign', prop)
 
 
 def run_case(ctx, kind, idx, rng):
     tier = ctx.tier
     k = kind.split(':')
+    if k[0] == 'foreign':
+        return case_foreign(ctx, k[1], idx)
     if k[0] == 'un':
         case_unary(ctx, rng, tier, k[1])
     elif k[0] == 'na':
